@@ -1270,7 +1270,47 @@ def lib_parse(idx, xml_bytes):
         return ("raise", type(e).__name__, None)
     if o is None:
         return ("none", None, None)
-    return ("ok", None, o)
+    # Round 8 (seed C12-e: an lru_cache keyed on the document bytes handed the FIRST parse's mutable object to every later
+    # parse): what a parse yields is a function of the document alone - not of earlier parses of the same bytes nor of
+    # what was done to their results.  Every parse the harness makes is therefore a little history: parse, record, use
+    # the result the way callers do (assign text / an extension attribute / a foreign child, compare with ==, which
+    # runs clear_text()), parse the same bytes again (bytes and str spelling): the second result must be a distinct
+    # object with exactly the recorded members.  The caller gets the fresh one.
+    try:
+        snap = abs_obj(o)
+        _scribble(o)
+        o2 = (f or (lambda b: saml2.create_class_from_xml_string(cls, b)))(xml_bytes)
+        if o2 is None or o2 is o or abs_obj(o2) != snap:
+            return ("raise", "ParseDependsOnHistory", None)
+        if isinstance(xml_bytes, bytes):
+            try:
+                as_str = xml_bytes.decode("utf-8")
+            except UnicodeDecodeError:
+                as_str = None
+            if as_str is not None and not as_str.lstrip().startswith("<?xml"):
+                _scribble(o2)
+                o3 = (f or (lambda b: saml2.create_class_from_xml_string(cls, b)))(as_str)
+                if o3 is None or o3 is o2 or o3 is o or abs_obj(o3) != snap:
+                    return ("raise", "ParseDependsOnHistory", None)
+                o2 = o3
+    except RecursionError:
+        return ("raise", "RecursionError", None)
+    return ("ok", None, o2)
+
+
+def _scribble(o):
+    """Use a parsed instance the way callers do; nothing here may be visible in a later parse of the same document."""
+    try:
+        o == o.__class__()           # SamlBase.__eq__ runs clear_text() on both sides
+    except Exception:  # noqa: BLE001
+        pass
+    try:
+        o.text = "scribbled by an earlier caller"
+        o.extension_attributes["scribbled"] = "1"
+        import saml2
+        o.extension_elements.append(saml2.ExtensionElement("scribble", namespace="urn:scribble"))
+    except Exception:  # noqa: BLE001
+        pass
 
 
 def pres(r):
